@@ -130,11 +130,13 @@ Log(e) == hist' = IF RecordHist THEN Append(hist, e) ELSE hist
 Ev(e, p, x) == [e |-> e, p |-> p - 1, x |-> x]     \* p - 1: halmos path ids start at 0
 
 AddArm ==
+    /\ lock = 0
     /\ mpc = "setup" /\ N < MaxPaths
     /\ \E a \in ArmSet : arms' = Append(arms, a)
     /\ UNCHANGED <<fl, prev, mpc, i, qs, shutdown, sharedcore, outputs, normal, stuck, raised, code, pexit, hist, lock>>
 
 Start ==
+    /\ lock = 0
     /\ mpc = "setup" /\ N >= MinPaths /\ Honest(arms)
     /\ mpc' = "loop"
     /\ qs' = [j \in 1..N |-> [st |-> "idle", res |-> NoRes]]
@@ -154,12 +156,14 @@ LoopCheck ==
     /\ UNCHANGED <<arms, fl, prev, i, qs, shutdown, sharedcore, outputs, normal, stuck, raised, code, pexit, lock>>
 
 ClassifyPlain ==
+    /\ lock = 0
     /\ mpc = "classify" /\ arms[i].o \in {"success", "revert"}
     /\ normal' = IF arms[i].o = "success" THEN normal + 1 ELSE normal
     /\ i' = i + 1 /\ mpc' = "loop"
     /\ UNCHANGED <<arms, fl, prev, qs, shutdown, sharedcore, outputs, stuck, raised, code, pexit, hist, lock>>
 
 Submit ==
+    /\ lock = 0
     /\ mpc = "classify" /\ arms[i].o \in ViolKinds
     /\ qs' = [qs EXCEPT ![i].st = "queued"]
     /\ i' = i + 1 /\ mpc' = "loop"
@@ -167,6 +171,7 @@ Submit ==
     /\ UNCHANGED <<arms, fl, prev, shutdown, sharedcore, outputs, normal, stuck, raised, code, pexit, lock>>
 
 StuckSubmit ==
+    /\ lock = 0
     /\ mpc = "classify" /\ arms[i].o = "stuck"
     /\ IF shutdown THEN /\ mpc' = "raised" /\ raised' = TRUE /\ Log(Ev("K", i, "shutdown"))
        ELSE IF arms[i].r = "spawnfail" THEN /\ mpc' = "raised" /\ raised' = TRUE /\ Log(Ev("K", i, "spawnfail"))
@@ -191,6 +196,7 @@ StuckFinish ==
     /\ UNCHANGED <<arms, fl, prev, qs, shutdown, sharedcore, outputs, normal, code, pexit, lock>>
 
 Join ==
+    /\ lock = 0
     /\ mpc = "join"
     /\ \A q \in 1..N : qs[q].st \in {"idle", "done"}
     /\ mpc' = "aggregate"
@@ -208,6 +214,7 @@ CodeOf(nsat, nerr, nunk, nstuck, nnormal) ==
     ELSE 0
 
 Aggregate ==
+    /\ lock = 0
     /\ mpc = "aggregate"
     /\ code' = CodeOf(Count("sat"), Count("err"), Count("unknown"), Cardinality(stuck), normal)
     /\ mpc' = "exit"
@@ -215,6 +222,7 @@ Aggregate ==
 
 \* run_tests: `except Exception` -> TestResult(funsig, EXCEPTION); the pool threads keep running
 Raised ==
+    /\ lock = 0
     /\ mpc = "raised"
     /\ code' = 5 /\ mpc' = "exit"
     /\ UNCHANGED <<arms, fl, prev, i, qs, shutdown, sharedcore, outputs, normal, stuck, raised, pexit, hist, lock>>
@@ -364,19 +372,24 @@ JRec(px) == [arms |-> arms, fl |-> fl, prev |-> prev, hist |-> hist, outputs |->
              acceptable |-> Acceptable(arms)]
 
 ExitCode ==
+    /\ lock = 0
     /\ mpc = "exit"
     /\ pexit' = IF NumFound - NumPassed = 0 THEN 0 ELSE 1
     /\ mpc' = "done"
     /\ EmitRecords => PrintT("JREC" \o ToJson(JRec(pexit')))
     /\ UNCHANGED <<arms, fl, prev, i, qs, shutdown, sharedcore, outputs, normal, stuck, raised, code, hist, lock>>
 
+AnyWorkerBegin   == \E q \in 1..N : WorkerBegin(q)
+AnySolverFinish  == \E q \in 1..N : SolverFinish(q)
+AnyReSolve       == \E q \in 1..N : ReSolve(q)
+AnySolverFinish2 == \E q \in 1..N : SolverFinish2(q)
+AnyCallback      == \E q \in 1..N : Callback(q)
+AnyEarlyExit     == \E q \in 1..N : EarlyExit(q)
+
 Next ==
-    \/ /\ lock = 0
-       /\ \/ AddArm \/ Start
-          \/ LoopCheck \/ ClassifyPlain \/ Submit \/ StuckSubmit \/ StuckFinish \/ Join \/ Aggregate \/ Raised
-          \/ ExitCode
-    \/ \E q \in 1..N : \/ WorkerBegin(q) \/ SolverFinish(q) \/ ReSolve(q) \/ SolverFinish2(q)
-                       \/ Callback(q) \/ EarlyExit(q)
+    \/ AddArm \/ Start
+    \/ LoopCheck \/ ClassifyPlain \/ Submit \/ StuckSubmit \/ StuckFinish \/ Join \/ Aggregate \/ Raised \/ ExitCode
+    \/ AnyWorkerBegin \/ AnySolverFinish \/ AnyReSolve \/ AnySolverFinish2 \/ AnyCallback \/ AnyEarlyExit
 
 Spec == Init /\ [][Next]_vars
 
